@@ -8,13 +8,24 @@
       everywhere (verified checker on a harness-computed certificate);
     * hence for every bundled rule, every source and every offset the engine TERMINATES, never raises GrammarError,
       and every end it reports is an RFC 5234 derivable end of the compiled definition.
-  NOT proved (differential part of ./check C09): that the compiled definition is what the module's ABNF TEXT
-  denotes (independent reader), that no derivable end is missing for the rules with first-match flags, and that every
-  rule accepts at least one string.
+    * **the compiled definition is what the module's ABNF TEXT denotes** (`compiled_equiv_text`): `AbnfGen.refBundledG` is
+      the reading of every module's `grammar` text by the INDEPENDENT reader of the harness (harness/abnf_ref.py, with the
+      imports each module declares and the documented first-match choices; regenerated on every run); every compiled rule
+      is paired with the text's rule of the same class and name (`pairs_cover`) and the verified inclusion checker
+      (Abnf/Equiv.lean, kernel-fast instance Abnf/EquivFast.lean) accepts both directions for all of them;
+      `flags_as_documented`: the first-match flags of the compiled table sit exactly where the reference reading puts them;
+    * hence for the 747 rules that reach no first-match flag (`plain_reach`) the engine's listed ends are EXACTLY the ends
+      the text denotes (`bundled_engine_exact_wrt_text`).
+  Trusted here: the independent reader and the pairing by (class, case-insensitive name) in harness/extract.py.
+  NOT proved: completeness for the rules that reach a first-match flag (there the flag semantics of C11 applies; tie:
+  differential of ./check C09), and that every rule accepts at least one string.
 -/
 import Abnf.Obligations.Bundled
 import Abnf.Theorems.C12
 import Abnf.Theorems.C01
+import Abnf.EquivFast
+import Abnf.AcceptOn
+import AbnfGen.RefBundled
 namespace Abnf.C09
 
 theorem bundled_wellformed :
@@ -38,5 +49,100 @@ theorem bundled_rule_total_and_sound (s : Src) (r : Nat) (hr : r < AbnfGen.bundl
   | fail => exact Or.inl rfl
   | ok ms =>
     exact Or.inr ⟨ms, rfl, C01.reported_end_is_derivable _ bundled_wellformed.bounds f s (.ref r) BoundsOk.ref i ms hres⟩
+
+/-! ### the compiled table against the independent reading of the module texts -/
+
+theorem tree_wf : AbnfGen.bundledGT.wf = true := by decide +kernel
+theorem ref_tree_wf : AbnfGen.refBundledGT.wf = true := by decide +kernel
+
+/-- every compiled rule is paired with a rule of the reference reading -/
+theorem pairs_cover_mask : coverMask AbnfGen.c09Pairs = 2 ^ AbnfGen.bundledG.size - 1 := by decide +kernel
+
+theorem pairs_cover (r : Nat) (hr : r < AbnfGen.bundledG.size) : ∃ b, (r, b) ∈ AbnfGen.c09Pairs :=
+  covers_all pairs_cover_mask r hr
+
+/-- the pair test of the whole list; the iteration domain in 8 chunks so that the kernel works on them in parallel -/
+def fwd (chunk : List (Nat × Nat)) : Bool :=
+  pairsOkL (treeDefn AbnfGen.bundledGT) (treeDefn AbnfGen.refBundledGT) (maskT (mkMask 1024 AbnfGen.c09Pairs) 1024) chunk 16
+def bwd (chunk : List (Nat × Nat)) : Bool :=
+  pairsOkL (treeDefn AbnfGen.refBundledGT) (treeDefn AbnfGen.bundledGT) (maskT (mkMask 1024 (swapPairs AbnfGen.c09Pairs)) 1024)
+    (swapPairs chunk) 16
+
+theorem fwd0 : fwd AbnfGen.c09Pairs0 = true := by decide +kernel
+theorem fwd1 : fwd AbnfGen.c09Pairs1 = true := by decide +kernel
+theorem fwd2 : fwd AbnfGen.c09Pairs2 = true := by decide +kernel
+theorem fwd3 : fwd AbnfGen.c09Pairs3 = true := by decide +kernel
+theorem fwd4 : fwd AbnfGen.c09Pairs4 = true := by decide +kernel
+theorem fwd5 : fwd AbnfGen.c09Pairs5 = true := by decide +kernel
+theorem fwd6 : fwd AbnfGen.c09Pairs6 = true := by decide +kernel
+theorem fwd7 : fwd AbnfGen.c09Pairs7 = true := by decide +kernel
+theorem bwd0 : bwd AbnfGen.c09Pairs0 = true := by decide +kernel
+theorem bwd1 : bwd AbnfGen.c09Pairs1 = true := by decide +kernel
+theorem bwd2 : bwd AbnfGen.c09Pairs2 = true := by decide +kernel
+theorem bwd3 : bwd AbnfGen.c09Pairs3 = true := by decide +kernel
+theorem bwd4 : bwd AbnfGen.c09Pairs4 = true := by decide +kernel
+theorem bwd5 : bwd AbnfGen.c09Pairs5 = true := by decide +kernel
+theorem bwd6 : bwd AbnfGen.c09Pairs6 = true := by decide +kernel
+theorem bwd7 : bwd AbnfGen.c09Pairs7 = true := by decide +kernel
+
+theorem fwd_all : pairsOkF AbnfGen.bundledGT AbnfGen.refBundledGT 1024 AbnfGen.c09Pairs 16 = true := by
+  have h0 := fwd0; have h1 := fwd1; have h2 := fwd2; have h3 := fwd3
+  have h4 := fwd4; have h5 := fwd5; have h6 := fwd6; have h7 := fwd7
+  unfold fwd at h0 h1 h2 h3 h4 h5 h6 h7
+  unfold pairsOkF
+  conv => lhs; arg 4; unfold AbnfGen.c09Pairs
+  simp only [pairsOkL_append, h0, h1, h2, h3, h4, h5, h6, h7, Bool.and_self]
+
+theorem bwd_all : pairsOkF AbnfGen.refBundledGT AbnfGen.bundledGT 1024 (swapPairs AbnfGen.c09Pairs) 16 = true := by
+  have h0 := bwd0; have h1 := bwd1; have h2 := bwd2; have h3 := bwd3
+  have h4 := bwd4; have h5 := bwd5; have h6 := bwd6; have h7 := bwd7
+  unfold bwd at h0 h1 h2 h3 h4 h5 h6 h7
+  unfold pairsOkF
+  conv => lhs; arg 4; unfold AbnfGen.c09Pairs
+  simp only [swapPairs_append, pairsOkL_append, h0, h1, h2, h3, h4, h5, h6, h7, Bool.and_self]
+
+/-- **The compiled definition is what the text denotes.**  For every compiled bundled rule `r` and the rule `b` the
+independent reading of the module's text pairs with it: they match the same spans of every text. -/
+theorem compiled_equiv_text (r b : Nat) (hmem : (r, b) ∈ AbnfGen.c09Pairs) (s : Src) (i j : Nat) :
+    M AbnfGen.bundledG s (.ref r) i j ↔ M AbnfGen.refBundledG s (.ref b) i j :=
+  equiv_pairsF_parts tree_wf ref_tree_wf fwd_all bwd_all hmem s i j
+
+/-- the first-match flags of an expression, in traversal order -/
+def flagsOf : Expr → List Bool
+  | .alt es first => first :: flagsL es
+  | .cat es => flagsL es
+  | .rep _ _ _ e => flagsOf e
+  | _ => []
+where flagsL : List Expr → List Bool
+  | [] => []
+  | e :: es => flagsOf e ++ flagsL es
+
+/-- the compiled table carries a first-match flag exactly where the reference reading (documented choices) does -/
+theorem flags_as_documented : AbnfGen.c09Pairs.all (fun p =>
+    match treeDefn AbnfGen.bundledGT p.1, treeDefn AbnfGen.refBundledGT p.2 with
+    | some d1, some d2 => flagsOf d1 == flagsOf d2
+    | _, _ => false) = true := by decide +kernel
+
+/-- the rules from which no first-match flag can be reached (untrusted mask, checked) -/
+theorem plain_reach : plainOnG AbnfGen.bundledG AbnfGen.c09PlainMask = true := by decide +kernel
+
+/-- **Engine vs text.**  For every compiled rule `r` that reaches no first-match flag, every source and offset: the engine
+terminates and the ends it lists are exactly the ends the module's text denotes for the paired rule. -/
+theorem bundled_engine_exact_wrt_text (r b : Nat) (hmem : (r, b) ∈ AbnfGen.c09Pairs)
+    (hplain : AbnfGen.c09PlainMask.testBit r = true) (hr : r < AbnfGen.bundledG.size)
+    (s : Src) (i : Nat) (hi : i ≤ s.length) (f : Nat)
+    (hf : fuelFor AbnfGen.bundledG.size AbnfGen.bundledGD (s.length - i) AbnfGen.bundledG.size 0 ≤ f) :
+    (∃ ms, lparse AbnfGen.bundledG f s (.ref r) i = .ok ms ∧ ∀ j, j ∈ stops ms ↔ M AbnfGen.refBundledG s (.ref b) i j) ∨
+    (lparse AbnfGen.bundledG f s (.ref r) i = .fail ∧ ∀ j, ¬ M AbnfGen.refBundledG s (.ref b) i j) := by
+  have ht := (C12.terminates bundled_wellformed s r i hi f hf).1
+  have hg := closed_noGerr AbnfGen.bundledG bundled_closed f s (.ref r) i
+    (defined_of_closedFast _ Obl.Bundled.bundled_closed r hr)
+  obtain ⟨c1, c2⟩ := ends_iff_derivable_on AbnfGen.bundledG bundled_wellformed.bounds _
+    (plainOnG_sound _ _ plain_reach) f s r hplain i
+  cases hres : lparse AbnfGen.bundledG f s (.ref r) i with
+  | oof => exact absurd hres ht
+  | gerr => exact absurd hres hg
+  | fail => exact Or.inr ⟨rfl, fun j hm => c2 hres j ((compiled_equiv_text r b hmem s i j).mpr hm)⟩
+  | ok ms => exact Or.inl ⟨ms, rfl, fun j => (c1 ms hres j).trans (compiled_equiv_text r b hmem s i j)⟩
 
 end Abnf.C09
